@@ -88,20 +88,23 @@ class ConstFeaturesCalculator(FeaturesCalculator):
         self.const = torch.tensor(const)
         self.mask = torch.ones((const,))
         self.mod = None
+        self.prefix = ""
 
     @property
     def features(self) -> torch.Tensor:
-        return cast(torch.Tensor, cast(nn.Module, self.mod).feat_calc_const)
+        return cast(torch.Tensor, getattr(self.mod, self.prefix + 'feat_calc_const'))
 
     @property
     def features_mask(self) -> torch.Tensor:
-        return cast(torch.Tensor, cast(nn.Module, self.mod).feat_calc_mask)
+        return cast(torch.Tensor, getattr(self.mod, self.prefix + 'feat_calc_mask'))
 
     def register(self, mod: nn.Module, prefix: str = ""):
         if self.mod is None:
             self.mod = mod
-            mod.register_buffer('feat_calc_const', self.const)
-            mod.register_buffer('feat_calc_mask', self.mask)
+            # the prefix keeps apart the constants of several calculators registered on the same module
+            self.prefix = prefix
+            mod.register_buffer(prefix + 'feat_calc_const', self.const)
+            mod.register_buffer(prefix + 'feat_calc_mask', self.mask)
 
 
 class ModAttrFeaturesCalculator(FeaturesCalculator):
@@ -150,12 +153,13 @@ class FlattenFeaturesCalculator(FeaturesCalculator):
         super(FlattenFeaturesCalculator, self).__init__()
         self.prev = prev
         self.mod = None
+        self.prefix = ""
         self.multiplier = torch.tensor(multiplier)
         self.mask_expander = torch.ones((multiplier,))
 
     @property
     def features(self) -> torch.Tensor:
-        mul = cast(nn.Module, self.mod).feat_calc_multiplier
+        mul = getattr(self.mod, self.prefix + 'feat_calc_multiplier')
         return mul * self.prev.features
 
     @property
@@ -163,18 +167,18 @@ class FlattenFeaturesCalculator(FeaturesCalculator):
         prev_mask = self.prev.features_mask
         mask_list = []
         for elm in prev_mask:
-            mask_list.append(elm * cast(nn.Module, self.mod).feat_calc_mask_expander)
+            mask_list.append(elm * getattr(self.mod, self.prefix + 'feat_calc_mask_expander'))
         mask = torch.cat(mask_list, dim=0)
         return mask
 
     def register(self, mod: nn.Module, prefix: str = ""):
         # recursively ensure that predecessors are registers
-        prefix = "prev_" + prefix
-        self.prev.register(mod, prefix)
+        self.prev.register(mod, "prev_" + prefix)
         if self.mod is None:
             self.mod = mod
-            mod.register_buffer('feat_calc_multiplier', self.multiplier)
-            mod.register_buffer('feat_calc_mask_expander', self.mask_expander)
+            self.prefix = prefix
+            mod.register_buffer(prefix + 'feat_calc_multiplier', self.multiplier)
+            mod.register_buffer(prefix + 'feat_calc_mask_expander', self.mask_expander)
 
 
 class ConcatFeaturesCalculator(FeaturesCalculator):
